@@ -28,17 +28,6 @@ def call_kwargs(spec, is_async):
     return kw
 
 
-def snapshot(pager, names):
-    """Attribute lookup through the pager itself (its __getattr__), never through private state."""
-    out = {}
-    for n in names:
-        try:
-            out[n] = D.encode_value(getattr(pager, n))
-        except Exception as e:  # noqa
-            out[n] = {"kind": "error", "error": type(e).__name__}
-    return out
-
-
 def page_items(page, spec):
     v = getattr(page, spec["item_field"])
     if spec.get("is_map"):
@@ -46,18 +35,33 @@ def page_items(page, spec):
     return [D.encode_value(x) for x in v]
 
 
+def snapshot(pager, spec):
+    """Attribute lookup through the pager itself (its __getattr__), never through private state."""
+    out = {}
+    for n in spec.get("attr_names", []):
+        try:
+            if n == spec["item_field"]:
+                out[n] = {"kind": "list", "items": page_items(pager, spec)}
+            else:
+                v = getattr(pager, n)
+                out[n] = D.encode_value(list(v) if not isinstance(v, (str, bytes, int, float, bool)) and hasattr(v, "__iter__") else v)
+        except Exception as e:  # noqa
+            out[n] = {"kind": "error", "error": type(e).__name__}
+    return out
+
+
 def run_sync(spec, gs, hs, pkg):
     client = D.make_client(pkg, spec["service_module"], spec["client"], spec["transport"], gs.target, hs.host)
     req = D.build_message(D.resolve(spec["request"]["cls"]), spec["request"]["b64"])
     pager = getattr(client, spec["method"])(request=req, **call_kwargs(spec, False))
-    out = {"type": type(pager).__name__, "before": snapshot(pager, spec.get("attr_names", []))}
+    out = {"type": type(pager).__name__, "before": snapshot(pager, spec)}
     if spec["mode"] == "items":
         out["items"] = [D.encode_value(list(x) if isinstance(x, tuple) else x) for x in pager]
     else:
         out["pages"] = []
         for page in pager.pages:
-            out["pages"].append({"items": page_items(page, spec), "snapshot": snapshot(pager, spec.get("attr_names", []))})
-    out["final"] = snapshot(pager, spec.get("attr_names", []))
+            out["pages"].append({"items": page_items(page, spec), "snapshot": snapshot(pager, spec)})
+    out["final"] = snapshot(pager, spec)
     return out
 
 
@@ -67,14 +71,14 @@ async def run_async(spec, gs, hs, pkg):
     pager = getattr(client, spec["method"])(request=req, **call_kwargs(spec, True))
     if inspect.isawaitable(pager):
         pager = await pager
-    out = {"type": type(pager).__name__, "before": snapshot(pager, spec.get("attr_names", []))}
+    out = {"type": type(pager).__name__, "before": snapshot(pager, spec)}
     if spec["mode"] == "items":
         out["items"] = [D.encode_value(list(x) if isinstance(x, tuple) else x) async for x in pager]
     else:
         out["pages"] = []
         async for page in pager.pages:
-            out["pages"].append({"items": page_items(page, spec), "snapshot": snapshot(pager, spec.get("attr_names", []))})
-    out["final"] = snapshot(pager, spec.get("attr_names", []))
+            out["pages"].append({"items": page_items(page, spec), "snapshot": snapshot(pager, spec)})
+    out["final"] = snapshot(pager, spec)
     return out
 
 
